@@ -58,11 +58,11 @@ TRet == IsEv("KRet") /\ Consume /\ Ev.t = know /\ KRet(Ev.ret)
 TStat == IsEv("KStat") /\ Consume /\ Ev.kills = kstat /\ kph = "idle" /\ UNCHANGED kvars
 \* end of an execution; objects torn down afterwards (an outstanding invocation dies with its plugin)
 TEnd == /\ IsEv("KEnd") /\ Consume /\ kph = "idle" /\ kph' = "over"
-        /\ UNCHANGED <<kw, kcfg, kx, stack, tried, hk, att, kctx, know, kstat, kret, ktick, pgLast,
+        /\ UNCHANGED <<stale, kw, kcfg, kx, stack, tried, hk, att, kctx, know, kstat, kret, ktick, pgLast,
                        liveInv, khist, keff, uuids>>
 TTeardown == /\ IsEv("HookDestroy") /\ Consume /\ kph = "over" /\ Ev.inv \in liveInv
              /\ liveInv' = liveInv \ {Ev.inv}
-             /\ UNCHANGED <<kw, kcfg, kx, kph, stack, tried, hk, att, kctx, know, kstat, kret, ktick, pgLast,
+             /\ UNCHANGED <<stale, kw, kcfg, kx, kph, stack, tried, hk, att, kctx, know, kstat, kret, ktick, pgLast,
                             khist, keff, uuids>>
 
 \* engine-level events of the surrounding ruleset are the business of Engine_Trace
@@ -78,6 +78,8 @@ TX == /\ IsEv("X") /\ Consume
       /\ \/ (Ev.kind = "uuid" /\ XUuid(Ev.p, Ev.ns, Ev.v))
          \/ (Ev.kind = "ooms" /\ XOoms(Ev.p, Ev.ns, Ev.v))
          \/ (Ev.kind = "kill" /\ XKill(Ev.p, Ev.ns, Ev.v))
+\* a cgroup emptied in the middle of a run (injected by the driver right before one of the plugin's file opens)
+TEmpty == IsEv("KEmpty") /\ Consume /\ KEmpty(Ev.p)
 TProcs == IsEv("ProcsOpen") /\ Consume /\ ProcsOpen(Ev.p, SeqToSet(Ev.pids))
 \* the 1 s breather between rounds shows up as a later timestamp on the next kill
 TKill == IsEv("Kill") /\ Consume /\ Ev.t = know /\ Signal(Ev.pid, Ev.sig, Ev.ok)
@@ -93,7 +95,7 @@ TKmsg == /\ IsEv("Kmsg") /\ Consume /\ Ev.prefixOk = TRUE /\ Ev.rs = "r0" /\ Ev.
 \* ---- systemd_restart (C04): dry issues no D-Bus call and counts nothing, but logs "(dry)" and STOPs.
 \* sd is encoded in kcfg/kph: kph = "sd" while a restart action runs; kcfg.plugin = service, kcfg.dry.
 TSReset == /\ IsEv("SReset") /\ Consume
-           /\ kw' = {} /\ kx' = <<>> /\ know' = Ev.t
+           /\ kw' = {} /\ stale' = {} /\ kx' = <<>> /\ know' = Ev.t
            /\ kcfg' = [plugin |-> Ev.service, pats |-> {}, recursive |-> FALSE, dry |-> Ev.dry, always |-> FALSE,
                        kernel |-> FALSE, reap |-> FALSE, hooks |-> <<>>]
            /\ kph' = "sd" /\ stack' = <<>> /\ tried' = FALSE /\ hk' = NoHook /\ att' = NoAtt
@@ -102,26 +104,26 @@ TSReset == /\ IsEv("SReset") /\ Consume
 TDbus == /\ IsEv("Dbus") /\ Consume /\ kph = "sd" /\ ~kcfg.dry /\ keff = {}
          /\ Ev.method = "RestartUnit" /\ Ev.unit = kcfg.plugin /\ Ev.mode = "replace"
          /\ keff' = {[kind |-> "dbus", path |-> <<>>, pid |-> 0, victim |-> <<>>]}
-         /\ UNCHANGED <<kw, kcfg, kx, kph, stack, tried, hk, att, kctx, know, kstat, kret, ktick, pgLast,
+         /\ UNCHANGED <<stale, kw, kcfg, kx, kph, stack, tried, hk, att, kctx, know, kstat, kret, ktick, pgLast,
                         liveInv, khist, uuids>>
 TSKmsg == /\ IsEv("SKmsg") /\ Consume /\ kph = "sd" /\ Ev.prefixOk = TRUE
           /\ Ev.service = kcfg.plugin /\ Ev.dry = kcfg.dry
           /\ (kcfg.dry \/ keff # {})                     \* wet: only after the D-Bus call
           /\ kstat' = IF kcfg.dry THEN kstat ELSE kstat + 1
           /\ kret' = "STOP"
-          /\ UNCHANGED <<kw, kcfg, kx, kph, stack, tried, hk, att, kctx, know, ktick, pgLast,
+          /\ UNCHANGED <<stale, kw, kcfg, kx, kph, stack, tried, hk, att, kctx, know, ktick, pgLast,
                          liveInv, khist, keff, uuids>>
 TSRet == /\ IsEv("SRet") /\ Consume /\ kph = "sd" /\ Ev.init = 0
          /\ Ev.ret = kret /\ Ev.restarts = kstat
          /\ kph' = "over"
-         /\ UNCHANGED <<kw, kcfg, kx, stack, tried, hk, att, kctx, know, kstat, kret, ktick, pgLast,
+         /\ UNCHANGED <<stale, kw, kcfg, kx, stack, tried, hk, att, kctx, know, kstat, kret, ktick, pgLast,
                         liveInv, khist, keff, uuids>>
 
 TSilent == KSilent /\ UNCHANGED l
 
 TraceNext ==
   \/ TReset \/ TEnv \/ TRun \/ TRet \/ TStat \/ TEnd \/ TSkip \/ THookFire \/ THookPoll
-  \/ THookDestroy \/ TSReset \/ TDbus \/ TSKmsg \/ TSRet \/ TTeardown \/ TClock \/ TX \/ TProcs \/ TKill \/ TReap \/ TCtl \/ TKmsg \/ TSilent
+  \/ THookDestroy \/ TSReset \/ TDbus \/ TSKmsg \/ TSRet \/ TTeardown \/ TClock \/ TX \/ TProcs \/ TKill \/ TReap \/ TCtl \/ TKmsg \/ TEmpty \/ TSilent
 
 TraceSpec == TraceInit /\ [][TraceNext /\ AuxStep]_tvars
 
